@@ -75,12 +75,47 @@ func zInt(x *big.Int) *num.Int { return must1(num.Z().FromBig(x)) }
 func intMsg(x *big.Int) *intcom.Message { return must1(intcom.NewMessage(zInt(x))) }
 func intWit(x *big.Int) *intcom.Witness { return must1(intcom.NewWitness(zInt(x))) }
 
+// wideValues: magnitudes around and beyond every natural width of the scheme — the modulus,
+// its bit length (exponent buffers sized like N̂), twice that, and the group order.
+func (c *intCtx) wideValues(r *vh.Rng, full bool) []*big.Int {
+	bl := uint(c.n.BitLen())
+	p2 := func(k uint) *big.Int { return new(big.Int).Lsh(bi(1), k) }
+	add := func(a *big.Int, d int64) *big.Int { return new(big.Int).Add(a, bi(d)) }
+	neg := func(a *big.Int) *big.Int { return new(big.Int).Neg(a) }
+	rnd := func(bits int) *big.Int {
+		x := r.BigBits(bits)
+		x.SetBit(x, bits-1, 1)
+		if r.Bool() {
+			x.Neg(x)
+		}
+		return x
+	}
+	kn := new(big.Int).Add(new(big.Int).Mul(c.n, bi(int64(2+r.Intn(5)))), bi(int64(r.Intn(9))-4))
+	vs := []*big.Int{
+		add(c.n, -1), c.n, add(c.n, 1), neg(c.n),
+		p2(bl), neg(p2(bl)), add(p2(bl), int64(1+r.Intn(9))), add(p2(bl), -1),
+		kn, p2(2 * bl), rnd(int(bl) * 3 / 2), rnd(int(bl) * 3),
+	}
+	if full {
+		vs = append(vs,
+			neg(add(c.n, -1)), neg(add(c.n, 1)), neg(add(p2(bl), 5)), neg(add(p2(bl), -1)), add(p2(bl), 1),
+			p2(bl-1), p2(bl+1), neg(p2(bl+1)), neg(kn), neg(p2(2*bl)), add(p2(2*bl), 1), add(p2(2*bl), -1),
+			new(big.Int).Add(p2(bl), c.n), new(big.Int).Mul(c.n, c.n), c.ord, add(c.ord, 1), neg(c.ord),
+			new(big.Int).Lsh(c.n, 80), neg(new(big.Int).Lsh(c.n, 80)), rnd(int(bl)*3/2), rnd(int(bl)*3), rnd(int(bl)*2+1))
+	}
+	return vs
+}
+
 func (c *intCtx) randInt(r *vh.Rng, bits int) *big.Int {
-	switch r.Intn(8) {
+	switch r.Intn(10) {
 	case 0:
 		return vh.Pick(r, []*big.Int{bi(0), bi(1), bi(-1), bi(2), new(big.Int).Sub(c.ord, bi(1)), new(big.Int).Neg(c.ord)})
 	case 1:
 		return big.NewInt(int64(r.Intn(2000)) - 1000)
+	case 2, 3:
+		if bits >= 200 { // messages, witnesses, shifts: around and beyond the modulus width
+			return vh.Pick(r, c.wideValues(r, true))
+		}
 	}
 	x := r.BigBits(1 + r.Intn(bits))
 	if r.Bool() {
@@ -88,6 +123,9 @@ func (c *intCtx) randInt(r *vh.Rng, bits int) *big.Int {
 	}
 	return x
 }
+
+// expCap bounds the exponents a program may build up (cost), well beyond 3× the modulus width.
+func (c *intCtx) expCap() int { return 4*c.n.BitLen() + 256 }
 
 type intReg struct {
 	m *intcom.Message
@@ -101,7 +139,11 @@ func intProgram[K commitments.HomomorphicCommitmentKey[K, *intcom.Message, *intc
 	if p := vh.Safely(func() {
 		for len(ops) < n && fail == "" {
 			kind, i, j := nextOp(rng, len(regs))
-			if kind == 'S' && (regs[i].w.Value().Big().BitLen() > 2500 || regs[i].m.Value().Big().BitLen() > 2500) {
+			opBits := 0
+			if len(regs) > 0 {
+				opBits = max(regs[i].w.Value().Big().BitLen(), regs[i].m.Value().Big().BitLen())
+			}
+			if kind == 'S' && opBits+40 > cx.expCap() {
 				kind = 'O'
 			}
 			switch kind {
@@ -165,11 +207,16 @@ func intProgram[K commitments.HomomorphicCommitmentKey[K, *intcom.Message, *intc
 			case 'S':
 				a := regs[i]
 				s := cx.randInt(rng, 40)
+				if rng.Chance(1, 4) { // scalars around and beyond the modulus width, within the cost cap
+					if ws := vh.Pick(rng, cx.wideValues(rng, true)); opBits+ws.BitLen() <= cx.expCap() {
+						s = ws
+					}
+				}
 				var m *intcom.Message
 				var w *intcom.Witness
 				var c *intcom.Commitment
 				var e1, e2, e3 error
-				if rng.Chance(1, 3) {
+				if s.BitLen() <= 40 && rng.Chance(1, 3) {
 					s = big.NewInt(int64(rng.Intn(201)) - 100)
 					m, e1 = commitments.MessageScalarOpSignedNumeric(key, a.m, zInt(s))
 					w, e2 = commitments.WitnessScalarOpSignedNumeric(key, a.w, zInt(s))
@@ -227,6 +274,153 @@ func intProgram[K commitments.HomomorphicCommitmentKey[K, *intcom.Message, *intc
 	return ops, regs, fail
 }
 
+// intScript executes a given program (explicit values only) on the implementation.
+func intScript[K commitments.HomomorphicCommitmentKey[K, *intcom.Message, *intcom.Witness, *intcom.Commitment, *num.Int]](
+	key K, ops []hop) (regs []intReg, fail string) {
+	if p := vh.Safely(func() {
+		for _, o := range ops {
+			var g intReg
+			var e1, e2, e3 error
+			switch o.kind {
+			case 'N':
+				g.m, g.w = intMsg(o.a), intWit(o.b)
+				g.c, e1 = key.CommitWithWitness(g.m, g.w)
+			case 'O':
+				a, b := regs[o.i], regs[o.j]
+				g.m, e1 = key.MessageOp(a.m, b.m)
+				g.w, e2 = key.WitnessOp(a.w, b.w)
+				g.c, e3 = key.CommitmentOp(a.c, b.c)
+			case 'V':
+				a := regs[o.i]
+				g.m, e1 = key.MessageOpInv(a.m)
+				g.w, e2 = key.WitnessOpInv(a.w)
+				g.c, e3 = key.CommitmentOpInv(a.c)
+			case 'S':
+				a := regs[o.i]
+				g.m, e1 = key.MessageScalarOp(a.m, zInt(o.a))
+				g.w, e2 = key.WitnessScalarOp(a.w, zInt(o.a))
+				g.c, e3 = key.CommitmentScalarOp(a.c, zInt(o.a))
+			case 'R':
+				a := regs[o.i]
+				g.m = a.m
+				g.c, e1 = key.ReRandomise(a.c, intWit(o.a))
+				g.w, e2 = key.WitnessOp(a.w, intWit(o.a))
+			case 'T':
+				a := regs[o.i]
+				g.w = a.w
+				g.c, e1 = key.Shift(a.c, intMsg(o.a))
+				g.m, e2 = key.MessageOp(a.m, intMsg(o.a))
+			}
+			if e1 != nil || e2 != nil || e3 != nil {
+				fail = fmt.Sprint(o.text(), ": ", e1, e2, e3)
+				return
+			}
+			regs = append(regs, g)
+		}
+	}); p != "" {
+		fail = "panic: " + p
+	}
+	return regs, fail
+}
+
+// bigCommit recomputes s^m · t^r mod N̂ with math/big (negative exponents invert the base).
+func (c *intCtx) bigCommit(s, t, m, r *big.Int) *big.Int {
+	pw := func(b, e *big.Int) *big.Int {
+		if e.Sign() < 0 {
+			return new(big.Int).Exp(new(big.Int).ModInverse(b, c.n), new(big.Int).Neg(e), c.n)
+		}
+		return new(big.Int).Exp(b, e, c.n)
+	}
+	x := pw(s, m)
+	return x.Mod(x.Mul(x, pw(t, r)), c.n)
+}
+
+// intcomVerify: every tracked opening must open (exported key, and the trapdoor key's Open), the
+// commitment must be s^m·t^r recomputed with math/big, and message, witness, commitment and Open
+// verdict must be the model's.
+func intcomVerify(r *runner, cx *intCtx, id, stream, cse string, pub *intcom.CommitmentKey, tk *intcom.TrapdoorKey, s, t *big.Int, ops []hop, regs []intReg) []string {
+	implOpen := make([]string, len(regs))
+	ems, ers := evalOps(ops, nil)
+	for k, g := range regs {
+		g := g
+		if g.m.Value().Big().Cmp(ems[k]) != 0 || g.w.Value().Big().Cmp(ers[k]) != 0 {
+			r.prop(fmt.Sprintf("%s.v%d", id, k), "intcom-combined-value", fmt.Sprintf("register %d (after %s): message/witness are not the combined ones (%s, %s)", k, ops[k].text(), zh(ems[k]), zh(ers[k])), cse, "intcom_homomorphic")
+		}
+		implOpen[k] = verdict(func() error { return pub.Open(g.c, g.m, g.w) })
+		if implOpen[k] == "1" {
+			if v := verdict(func() error { return tk.Open(g.c, g.m, g.w) }); v != "1" {
+				implOpen[k] = v
+			}
+		}
+		want := cx.bigCommit(s, t, g.m.Value().Big(), g.w.Value().Big())
+		if implOpen[k] != "1" || g.c.Value().Value().Big().Cmp(want) != 0 {
+			r.prop(fmt.Sprintf("%s.r%d", id, k), "intcom-homomorphic-open", fmt.Sprintf("register %d (after %s) does not open to the combined message and witness: Open=%s, commitment = s^m·t^r (math/big): %v", k, ops[k].text(), implOpen[k], g.c.Value().Value().Big().Cmp(want) == 0), cse, "intcom_homomorphic")
+		}
+	}
+	r.ask(fmt.Sprintf("I %s %s %s %s %s", id, zh(cx.n), zh(s), zh(t), progText(ops)), func(out string) {
+		mr := parseRegs(out, true)
+		if len(mr) != len(regs) {
+			r.corr(id, "intcom-program", fmt.Sprintf("model has %d registers, implementation %d", len(mr), len(regs)), cse, "correspondence intcom program", false)
+			return
+		}
+		for k, g := range regs {
+			var d []string
+			if g.m.Value().Big().Cmp(mr[k].m) != 0 {
+				d = append(d, fmt.Sprintf("message %s model %s", zh(g.m.Value().Big()), zh(mr[k].m)))
+			}
+			if g.w.Value().Big().Cmp(mr[k].r) != 0 {
+				d = append(d, fmt.Sprintf("witness %s model %s", zh(g.w.Value().Big()), zh(mr[k].r)))
+			}
+			if g.c.Value().Value().Big().Cmp(mr[k].c0) != 0 {
+				d = append(d, fmt.Sprintf("commitment %s model %s", zh(g.c.Value().Value().Big()), zh(mr[k].c0)))
+			}
+			if implOpen[k] != mr[k].open {
+				d = append(d, fmt.Sprintf("Open %s model %s", implOpen[k], mr[k].open))
+			}
+			if len(d) > 0 {
+				r.corr(fmt.Sprintf("%s.r%d", id, k), "intcom-op-"+string(ops[k].kind), fmt.Sprintf("register %d after %s: %s", k, ops[k].text(), strings.Join(d, "; ")), cse,
+					"correspondence intcom operations over Z_N^* [model/Commit.v hrun int_scheme]", implOpen[k] != "1")
+			}
+		}
+	})
+	return implOpen
+}
+
+// intcomBoundary: Commit, Shift, ReRandomise, ScalarOp and OpInv with every wide magnitude as
+// message, witness, shift and scalar, on the trapdoor key and on the exported key.
+func intcomBoundary(r *runner, cx *intCtx, i int, full bool) {
+	stream := "intbound-" + cx.name
+	rng := vh.NewRng(r.a.Seed, "C18", stream, i)
+	t, lambda, tk := cx.randKey(rng)
+	pub := tk.Export()
+	s := pub.S().Value().Big()
+	m0, r0 := cx.randInt(rng, 100), cx.randInt(rng, 100)
+	ops := []hop{{kind: 'N', a: m0, b: r0}}
+	for _, d := range cx.wideValues(rng, full) {
+		ops = append(ops, hop{kind: 'T', i: 0, a: d}, hop{kind: 'R', i: 0, a: d}, hop{kind: 'S', i: 0, a: d},
+			hop{kind: 'N', a: d, b: r0}, hop{kind: 'N', a: m0, b: d})
+		ops = append(ops, hop{kind: 'V', i: len(ops) - 2}, hop{kind: 'T', i: len(ops) - 1, a: new(big.Int).Neg(d)})
+	}
+	for _, useTrap := range []bool{false, true} {
+		id := fmt.Sprintf("IB-%s-%d-%v", cx.name, i, useTrap)
+		var regs []intReg
+		var fail string
+		if useTrap {
+			regs, fail = intScript(tk, ops)
+		} else {
+			regs, fail = intScript(pub, ops)
+		}
+		cse := fmt.Sprintf("%s %d | trapdoor-ops=%v N=%s s=%s t=%s lambda=%s ops=%s", stream, i, useTrap, zh(cx.n), zh(s), zh(t), zh(lambda), progText(ops))
+		r.res.Count(stream+"-program", cse, len(regs) > 0)
+		r.res.Distribution[stream+"-registers"] += len(regs)
+		if fail != "" {
+			r.prop(id, "intcom-op-refused", "a homomorphic operation on well-formed values failed: "+fail, cse, "intcom_homomorphic")
+			continue
+		}
+		intcomVerify(r, cx, id, stream, cse, pub, tk, s, t, ops, regs)
+	}
+}
+
 func (c *intCtx) elem(pub *intcom.CommitmentKey, v *big.Int) (*znstar.RSAGroupElementUnknownOrder, error) {
 	return pub.Group().FromNat(must1(num.N().FromBig(v)))
 }
@@ -256,41 +450,7 @@ func intcomCase(r *runner, c counts, cx *intCtx, i int) {
 		r.prop(id, "intcom-op-refused", "a homomorphic operation on well-formed values failed: "+fail, cse, "intcom_homomorphic")
 		return
 	}
-	implOpen := make([]string, len(regs))
-	for k, g := range regs {
-		g := g
-		implOpen[k] = verdict(func() error { return pub.Open(g.c, g.m, g.w) })
-		if implOpen[k] != "1" {
-			r.prop(fmt.Sprintf("%s.r%d", id, k), "intcom-homomorphic-open", fmt.Sprintf("register %d (after %s) does not open to the combined message and witness: %s", k, ops[k].text(), implOpen[k]), cse, "intcom_homomorphic")
-		}
-	}
-	keyLine := fmt.Sprintf("%s %s %s", zh(cx.n), zh(s), zh(t))
-	r.ask(fmt.Sprintf("I %s %s %s", id, keyLine, progText(ops)), func(out string) {
-		mr := parseRegs(out, true)
-		if len(mr) != len(regs) {
-			r.corr(id, "intcom-program", fmt.Sprintf("model has %d registers, implementation %d", len(mr), len(regs)), cse, "correspondence intcom program", false)
-			return
-		}
-		for k, g := range regs {
-			var d []string
-			if g.m.Value().Big().Cmp(mr[k].m) != 0 {
-				d = append(d, fmt.Sprintf("message %s model %s", zh(g.m.Value().Big()), zh(mr[k].m)))
-			}
-			if g.w.Value().Big().Cmp(mr[k].r) != 0 {
-				d = append(d, fmt.Sprintf("witness %s model %s", zh(g.w.Value().Big()), zh(mr[k].r)))
-			}
-			if g.c.Value().Value().Big().Cmp(mr[k].c0) != 0 {
-				d = append(d, fmt.Sprintf("commitment %s model %s", zh(g.c.Value().Value().Big()), zh(mr[k].c0)))
-			}
-			if implOpen[k] != mr[k].open {
-				d = append(d, fmt.Sprintf("Open %s model %s", implOpen[k], mr[k].open))
-			}
-			if len(d) > 0 {
-				r.corr(fmt.Sprintf("%s.r%d", id, k), "intcom-op-"+string(ops[k].kind), fmt.Sprintf("register %d after %s: %s", k, ops[k].text(), strings.Join(d, "; ")), cse,
-					"correspondence intcom operations over Z_N^* [model/Commit.v hrun int_scheme]", implOpen[k] != "1")
-			}
-		}
-	})
+	intcomVerify(r, cx, id, stream, cse, pub, tk, s, t, ops, regs)
 
 	// single-component changes
 	modn := func(x *big.Int) *big.Int { return new(big.Int).Mod(x, cx.n) }
@@ -320,6 +480,9 @@ func intcomCase(r *runner, c counts, cx *intCtx, i int) {
 			{"msg+1", t, lambda, cv, add(m, bi(1)), w, true, false},
 			{"msg-1", t, lambda, cv, add(m, bi(-1)), w, true, false},
 			{"msg-neg", t, lambda, cv, new(big.Int).Neg(m), w, new(big.Int).Mod(add(m, m), cx.ord).Sign() != 0, false},
+			{"msg+2^bitlen", t, lambda, cv, add(m, new(big.Int).Lsh(bi(1), uint(cx.n.BitLen()))), w, true, false},
+			{"msg+N", t, lambda, cv, add(m, cx.n), w, true, false},
+			{"wit+2^bitlen", t, lambda, cv, m, add(w, new(big.Int).Lsh(bi(1), uint(cx.n.BitLen()))), true, false},
 			{"wit+1", t, lambda, cv, m, add(w, bi(1)), true, false},
 			{"wit-1", t, lambda, cv, m, add(w, bi(-1)), true, false},
 			{"wit-random", t, lambda, cv, m, cx.randInt(rng, 1100), true, false},
@@ -430,6 +593,16 @@ func intcomEquivocate(r *runner, cx *intCtx, i int) {
 
 func intcomAll(r *runner, c counts) {
 	small, big := newIntCtx("n512"), newIntCtx("n1024")
+	thorough := r.a.Tier == "thorough" || r.a.Search
+	intcomBoundary(r, small, 0, true)
+	intcomBoundary(r, big, 0, thorough)
+	if thorough {
+		for i := 1; i < 6; i++ {
+			intcomBoundary(r, small, i, true)
+			intcomBoundary(r, big, i, true)
+			r.maybeFlush()
+		}
+	}
 	for i := 0; i < c.intc; i++ {
 		intcomCase(r, c, small, i)
 		if i%2 == 0 {
@@ -453,6 +626,8 @@ func intcomReplay(r *runner, c counts, stream string, idx int) {
 	}
 	if strings.HasPrefix(stream, "inteq-") {
 		intcomEquivocate(r, newIntCtx(name), idx)
+	} else if strings.HasPrefix(stream, "intbound-") {
+		intcomBoundary(r, newIntCtx(name), idx, name == "n512" || idx > 0 || r.a.Tier == "thorough")
 	} else {
 		intcomCase(r, c, newIntCtx(name), idx)
 	}
